@@ -65,6 +65,24 @@ func c13List(c *core.Ctx) []string {
 		}
 	}
 
+	if c.Rng.Intn(3) == 0 {
+		// A cosmetic-heavy list: several unconditional generic rules (3..7, so
+		// that slices built from them have spare capacity), generic rules that
+		// depend on the host through an exclusion or an exception, and
+		// domain-specific ones.
+		var cos []string
+		for i, k := 0, 3+c.Rng.Intn(5); i < k; i++ {
+			cos = append(cos, fmt.Sprintf("##.g%d", i))
+		}
+		cos = append(cos, "~example.org##.not-on-example", "~a.com,~evil.org##.not-on-a", "##.excepted", "a.com#@#.excepted", "example.org#@#.excepted",
+			"example.org##.s1", "a.com,b.a.com##.s2", "example.*##.s3", "sub.example.org##.s4")
+		for _, l := range cos {
+			j := c.Rng.Intn(len(lines) + 1)
+			lines = append(lines[:j], append([]string{l}, lines[j:]...)...)
+		}
+		c.Event("cosmetic_heavy_lists", 1)
+	}
+
 	return lines
 }
 
@@ -289,6 +307,10 @@ func c13Run(c *core.Ctx, idx int) {
 	for i := 0; i < 4; i++ {
 		pool = append(pool, c13Op{Kind: "cosmetic", Host: c15Hostnames[c.Rng.Intn(len(c15Hostnames))], Flag: c.Rng.Intn(8)})
 	}
+	for i := 0; i < 4; i++ {
+		// Hosts on which the host-dependent generic rules differ, everything enabled.
+		pool = append(pool, c13Op{Kind: "cosmetic", Host: []string{"example.org", "a.com", "sub.example.org", "unrelated.net", "b.a.com", "evil.org"}[c.Rng.Intn(6)], Flag: 7})
+	}
 
 	shared := c.Rng.Intn(2) == 0
 	if shared {
@@ -415,7 +437,7 @@ func init() {
 	core.Register(&core.Prop{
 		ID:    "C13",
 		Level: "exploration",
-		Rule: "per case one list of 15..65 lines (rules with per-request modifiers $client/$ctag/$dnstype, $dnsrewrite rules and exceptions, badfilter twins, regexps that do not compile, cosmetic rules, hosts lines, referrer-level exceptions), String- or File-backed, and one history of 40..160 (thorough 50..400) operations drawn with heavy repetition from 22 distinct DNS / web / MatchAll / cosmetic queries (consecutive DNS queries with and without client name, address, tags, record type) interleaved with DNSRewrites, DNSRewritesAll, GetBasicResult, GetCosmeticOption, GetDNSBasicRule and NewMatchingResult on OLD results; " +
+		Rule: "per case one list of 15..65 lines (rules with per-request modifiers $client/$ctag/$dnstype, $dnsrewrite rules and exceptions, badfilter twins, regexps that do not compile, cosmetic rules, hosts lines, referrer-level exceptions), String- or File-backed, and one history of 40..160 (thorough 50..400) operations drawn with heavy repetition from 26 distinct DNS / web / MatchAll / cosmetic queries (consecutive DNS queries with and without client name, address, tags, record type) interleaved with DNSRewrites, DNSRewritesAll, GetBasicResult, GetCosmeticOption, GetDNSBasicRule and NewMatchingResult on OLD results; " +
 			"oracle: every answer == the answer of a fresh engine over the same bytes (memoised per distinct query), and every kept result object re-snapshotted after every later operation == its snapshot at return; non-trivial = every history; distinct by list and length",
 		Assumptions: []string{
 			"snapshots cover the exported state of results and rules (texts, flags, list ids, shortcut, rewrite values, slice contents and order)",
